@@ -1,8 +1,8 @@
 SPECIFICATION Spec
-CONSTANTS MaxLen = 3
+CONSTANTS Lens = {1, 2, 3}
   Sizes = {80, 10064}
   Pkts <- LinkPkts
   Filters <- LinkFilters
-  CutAll = TRUE
+  CutMode = "all"
 INVARIANTS ChainExact PrefixKept Emit
 CHECK_DEADLOCK FALSE
